@@ -5,3 +5,4 @@ CONSTANTS
   LfLo <- LfLoV
   LfHi = 4
 CHECK_DEADLOCK FALSE
+INVARIANT NoxSmallFlowsFitted
